@@ -45,7 +45,13 @@ func TestMain(m *testing.M) {
 			"dialer's listener from their listening sockets after a drawn delay; H: session histories inside one verifying process -- 1-3 honest sessions of a "+
 			"verifier with the victim, a bystander or the attacker's own identity (verifier in either role; the peer is the library's transport or a "+
 			"spec-level endpoint with one long-lived certificate / Noise static key), then 1-2 attacks that present the certificate / libp2p extension / Noise "+
-			"payload OBSERVED from those peers again under a certificate key / static key of the attacker's own (whole, re-wrapped, or mixed field by field). "+
+			"payload OBSERVED from those peers again under a certificate key / static key of the attacker's own (whole, re-wrapped, or mixed field by field); "+
+			"G: a remote that holds key M and signs correctly with it presents M's public key in a non-canonical but valid encoding inside the Noise payload / "+
+			"TLS certificate extension: 0-3 drawn operators on the PublicKey protobuf (unknown field of any wire type / number class at any place, fields reordered, "+
+			"repeated Type / Data with the last occurrence genuine, over-long varints in tag / length / value, high bits on the enum varint, uncompressed / hybrid "+
+			"secp256k1 point or BER length form for Data) and 0-1 on the Noise payload message, for every remote key type (RSA weighted double), both verifying roles and "+
+			"expected peer empty / M's ID / another ID / the alias ID obtained by hashing the presented bytes / check disabled; judged by the identity oracle only "+
+			"(completion => RemotePeer() is the canonical ID of M, RemotePublicKey() is M's key, the named peer is that ID). "+
 			"A case is NON-TRIVIAL when a mismatch / edit / substitution is actually present (not the honest "+
 			"baseline, and the edit hit and changed a frame); two cases are DISTINCT when (scenario, protocol, key types, role, settings, operator, "+
 			"frame, position) differ.",
